@@ -12,7 +12,7 @@ import (
 func init() {
 	Registry["C20"] = checkC20
 	Descriptions["C20"] = "Necessary per-handler clauses of the test directory's store behaviour (operation histories are not replayed): " +
-		"C20-arms (handleModify has an arm for add, delete and replace; on every path where the attribute exists - for add also where it does not - the arm performs a store into memory reachable from the matched entry, whose value derives from the change's values for add/replace), " +
+		"C20-lookup (what handleModify's arms test and index with is looked up anew for every change: no loop-carried value of the loop over m.Changes), C20-arms (handleModify has an arm for add, delete and replace; on every path where the attribute exists - for add also where it does not - the arm performs a store into memory reachable from the matched entry, whose value derives from the change's values for add/replace), " +
 		"C20-pairing (add/delete report success only after the store that implements them, and no such store happens on a path that reports another code), " +
 		"C20-codes (add on an existing DN -> entryAlreadyExists under the found test; delete/modify default noSuchObject), " +
 		"C20-search-source (entries written by the search handlers are elements of the directory's lists with all attributes in slice order; find returns elements of the list it is given, in order). Does not decide match()'s substring semantics, cross-operation histories, concurrency (C15)."
@@ -248,6 +248,98 @@ func checkC20(c *Ctx) {
 				R.Fail("C20-arms", key, c.pos(ifs[0].If), "on a path where the attribute exists the "+opName[op]+" arm "+what+": the modification reports success and changes nothing: "+c.trail(w))
 			} else {
 				R.OK("C20-arms", key, c.pos(ifs[0].If), "every path through the arm (with the attribute present"+map[bool]string{true: ", or absent", false: ""}[op == 0]+") stores into memory reachable from the matched entry")
+			}
+		}
+		// ---- C20-lookup: each change is applied to the attribute looked up FOR THAT CHANGE: what the arms test
+		// and index with (the found attribute, its position) must not be carried over from the previous change
+		{
+			var chgHead *ssa.BasicBlock
+			an.Instrs(h, func(in ssa.Instruction) {
+				iff, ok := in.(*ssa.If)
+				if !ok || !an.IsRangeHeader(iff) {
+					return
+				}
+				if bo, ok := iff.Cond.(*ssa.BinOp); ok {
+					if lc, ok := bo.Y.(*ssa.Call); ok && len(lc.Common().Args) == 1 {
+						if _, names := an.FieldChain(lc.Common().Args[0]); len(names) > 0 && names[len(names)-1] == "Changes" {
+							chgHead = iff.Block()
+						}
+					}
+				}
+			})
+			key := fname(h) + ": the attribute lookup is redone for every change"
+			if chgHead == nil {
+				R.Unknown("C20-lookup", key, c.P.Pos(h.Pos()), "cannot find the loop over m.Changes")
+			} else {
+				// values the arms depend on: nil tests of *EntryAttribute, and indices / slice bounds, inside the loop
+				var roots []ssa.Value
+				an.Instrs(h, func(in ssa.Instruction) {
+					if !chgHead.Dominates(in.Block()) {
+						return
+					}
+					switch x := in.(type) {
+					case *ssa.If:
+						v, _ := an.Not(x.Cond)
+						if y, _, ok := an.NilCheck(v); ok && an.TypeIs(y.Type(), G, "EntryAttribute") {
+							roots = append(roots, y)
+						}
+					case *ssa.IndexAddr:
+						roots = append(roots, x.Index)
+					case *ssa.Slice:
+						if x.Low != nil {
+							roots = append(roots, x.Low)
+						}
+						if x.High != nil {
+							roots = append(roots, x.High)
+						}
+					}
+				})
+				seen := map[ssa.Value]bool{}
+				var carried *ssa.Phi
+				var walk func(v ssa.Value)
+				walk = func(v ssa.Value) {
+					if v == nil || seen[v] {
+						return
+					}
+					seen[v] = true
+					switch x := v.(type) {
+					case *ssa.Phi:
+						if x.Block() == chgHead && !an.IsRangeIdx(x) && !isRangeIndex(x) {
+							// the induction variable itself is phi(-1, i+1) with i+1 in the header
+							isInd := false
+							for _, ref := range *x.Referrers() {
+								if bo, ok := ref.(*ssa.BinOp); ok && bo.Op == token.ADD && an.IsRangeIdx(bo) {
+									isInd = true
+								}
+							}
+							if !isInd {
+								carried = x
+							}
+						}
+						for _, e := range x.Edges {
+							walk(e)
+						}
+					case *ssa.BinOp:
+						walk(x.X)
+						walk(x.Y)
+					case *ssa.UnOp:
+						if x.Op != token.MUL {
+							walk(x.X)
+						}
+					case *ssa.Convert:
+						walk(x.X)
+					case *ssa.ChangeType:
+						walk(x.X)
+					}
+				}
+				for _, r := range roots {
+					walk(r)
+				}
+				if carried != nil {
+					R.Fail("C20-lookup", key, c.pos(chgHead.Instrs[len(chgHead.Instrs)-1]), "variable "+carried.Comment+" keeps its value from the previous change of the same request (it is a loop-carried value of the loop over m.Changes): a change naming an attribute the entry does not have is applied to the attribute the previous change found")
+				} else {
+					R.OK("C20-lookup", key, c.pos(chgHead.Instrs[len(chgHead.Instrs)-1]), sprintf("none of the %d values the arms test or index with is carried across iterations of the loop over m.Changes", len(roots)))
+				}
 			}
 		}
 		// success only after the change loop; default code
